@@ -25,6 +25,7 @@ def records():
         _RECS.insert(3, recs.build_record(selgrammar.SAME_NAMES_OTHER_TYPES))
         other = recs.build_record(recs.rs("sel/other", [["string", "o"], ["varint", "n"]], ["'other'", "77"]))
         _RECS.append(GroupedRecord("sel/grouped", [recs.build_record(selgrammar.RECORDS[0]), other]))
+        _RECS.extend([recs.build_record(selgrammar.DEEP), recs.build_record(selgrammar.TWIN1), recs.build_record(selgrammar.TWIN2)])
     return _RECS
 
 
